@@ -4,7 +4,7 @@ import json, subprocess, os
 
 A_NOTE = ("Trusted: the harness's own bookkeeping (BFS, fold of emitted events, monitors built from the layout and the physical history only), "
           "the snapshot/restore hook (re-validated every run by replaying BFS histories on a fresh mapper), key-class symmetry for keys a layout does not mention. "
-          "Bounds: N keys held at once, generated layouts of <=3 mappings over a 4-key physical alphabet plus foreign keys, the hand-built families Q4, S4/S5, O3, M2, K1-K4 (DESIGN 3.2), fixed corpus read from the tree.")
+          "Bounds: N keys held at once, generated layouts of <=3 mappings over a 4-key physical alphabet plus foreign keys, the hand-built families Q4, S4/S5, O3, M2, M3, NR4, K1-K5 (DESIGN 3.2), fixed corpus read from the tree.")
 
 CHECKS = {
  "C01": ("model_checking", "A", "3.1, 6-C01", "explicit-state BFS to fixpoint over the real Mapper::step",
@@ -35,14 +35,14 @@ CHECKS = {
          "For every execution of the schedule set and every k: the k-th driver call returns an error; the loop must return that error and make no further driver call."),
  "C13": ("exploration", "C", "5.1, 6-C13", "bounded-exhaustive enumeration of layout programs from a grammar against a reference expander (differential through the real loader)",
          "Every program of the grammar (alias set-ups x rows x positions x all printable ASCII characters; single mappings over modifier/output/repeat/absorbing forms with neighbours; whole-row programs; ordered tuples of sources): the converter's output equals the hand-written expansion, group by group in source order; respelled variants convert identically."),
- "C14": ("exploration", "C", "6-C14", "bounded-exhaustive input enumeration of the real load_layout_from_file in worker processes + explicit-state exploration of every accepted layout",
-         "Every byte string up to the length bound, schema-shaped JSON over an atom menu, all single (thorough: pair) structure-aware mutations of seed layouts, repeated keys/aliases at every position: load returns Ok or Err, never panics or dies; every accepted layout is explored by Engine A to a fixpoint without a panic."),
- "C15": ("exploration", "C", "5.4, 6-C15", "exhaustive enumeration over all key codes and a layout shape family; save with the installer's call, reload with the real loader",
-         "All key codes the tool knows in every syntactic position, the shape family with extreme numbers, the converted fixed corpus: the reloaded mapping list equals the saved one; also through the real private write_layout_to_global_config into a private /etc inside a mount namespace."),
+ "C14": ("exploration", "C", "6-C14", "bounded-exhaustive input enumeration of the real load_layout_from_file in worker processes + explicit-state exploration of every accepted layout and of the generated layout families (panics only) + the same inputs through the real binary's loading path in a private mount namespace (Engine E)",
+         "Every byte string up to the length bound, schema-shaped JSON over an atom menu, all single (thorough: pair) structure-aware mutations of seed layouts, repeated keys/aliases at every position: load returns Ok or Err, never panics or dies; every accepted layout, and every layout of the generated mapper families (up to four keys held), is explored by Engine A to a fixpoint without a panic; the real binary (`remap --layout-file F`) ends with status 0 or 1 on every structured input."),
+ "C15": ("exploration", "C", "5.4, 6-C15", "exhaustive enumeration over all key codes and a layout shape family; save with the installer's call, reload with the real loader; end-to-end through the real binary's add_systemd_service in a private mount namespace (Engine E)",
+         "All key codes the tool knows in every syntactic position, the shape family with extreme numbers, the converted fixed corpus: the reloaded mapping list equals the saved one; also through the real private write_layout_to_global_config into a private /etc inside a mount namespace, and through the real binary's `add_systemd_service --layout-file F` (files in basic and in shorthand syntax, built-in names) whose saved file is reloaded and compared with what the loader makes of F."),
  "C16": ("exploration", "C", "5.4, 6-C16", "bounded-exhaustive enumeration of device-list texts and exclude sets; end-to-end runs of the real binary in a private mount namespace",
          "Every sequence of device entries up to the bound through both private extractors (independence of neighbours, agreement of the two discovery paths), every exclude set against an independent glob matcher, and the real binary's list_keyboards / --all-keyboards / --dev-file --only-if-keyboard selection over fabricated /proc, /sys and /dev."),
- "C17": ("exploration", "C", "5.2, 6-C17", "exhaustive enumeration (all Unicode scalar values, all short strings over the syntax alphabet, pattern lists) against a reference systemd ExecStart reader",
-         "Every input goes through the real build_service_text; the reference reader (split, unquote, C-unescape, % specifiers, $ variables) must return exactly the expected argument vector with every pattern byte-identical."),
+ "C17": ("exploration", "C", "5.2, 6-C17", "exhaustive enumeration (all Unicode scalar values, all short strings over the syntax alphabet, pattern lists) against a reference systemd ExecStart reader, in-process through build_service_text and end-to-end through the unit file written by the real binary's add_systemd_service in a private mount namespace (Engine E)",
+         "Every input goes through the real build_service_text; the reference reader (split, unquote, C-unescape, % specifiers, $ variables) must return the expected argument vector with every pattern byte-identical (order and repetition of the --exclude pairs are not constrained, DESIGN 7.10); the same oracle reads the unit file the real binary writes for every scalar value, alphabet pair and long list."),
  "C18": ("exploration", "C", "5.3, 6-C18", "exhaustive enumeration over all key codes, short batches and record-kind sequences; real writer and reader over a pipe with libc::input_event as layout oracle",
          "Every key code x press/release, every short batch over boundary codes: byte length, every record's type/code/value at libc's offsets, exactly one trailing SYN_REPORT; the real reader returns the same events then EAGAIN and skips every foreign record kind in every sequence up to the bound."),
  "C19": ("model_checking", "A", "6-C19", "explicit-state BFS over the real Mapper::step; fold of the emitted stream",
@@ -64,6 +64,7 @@ ENGINES = [
  {"name": "A", "path": "harness/src/engine_a.rs", "serves_properties": ["C01","C02","C03","C04","C05","C06","C07","C08","C09","C19","C14"], "kind_free_text": "explicit-state BFS to fixpoint over the real Mapper::step/release_all with product monitors; partition refinement for C06"},
  {"name": "B", "path": "harness/src/engine_b.rs", "serves_properties": ["C10","C11","C12","C20"], "kind_free_text": "stateless DFS over environment choices of a scripted driver + virtual clock running the real do_remapping_loop_one_device"},
  {"name": "R", "path": "harness/src/engine_r.rs", "serves_properties": ["C10","C12","C20"], "kind_free_text": "the real RealDriver, readers, writer and poll registry over socket pairs and a pipe, stepped deterministically (loop thread observed at rest in epoll_wait); bounded-exhaustive scenario families with descriptor-state faults"},
+ {"name": "E", "path": "harness/src/e2e.rs", "serves_properties": ["C14","C15","C17"], "kind_free_text": "the real binary (guard off) in a private mount namespace with a private /etc and /dev and no-op helper programs: add_systemd_service and remap --layout-file over the same exhaustive input families, the files it leaves behind judged by the in-process oracles (DESIGN 5.5)"},
  {"name": "C", "path": "harness/src", "serves_properties": ["C13","C14","C15","C16","C17","C18"], "kind_free_text": "bounded-exhaustive input enumeration of the pure functions against small reference models; one file per property: c13.rs ... c18.rs"},
 ]
 
